@@ -30,6 +30,7 @@ class FolKB:
         self.desc = desc
         self.obj, self.idof, self.order = {}, {}, []
         self.desync = []
+        self.requested = {n["id"]: n for n in desc["nodes"] if n["kind"] in ("and", "or", "implies")}
         self.vars = {}
         wmap = {"open": L.World.OPEN, "closed": L.World.CLOSED, "axiom": L.World.AXIOM}
         acts = {"luk": L.NeuralActivation.Lukasiewicz, "lukt": L.NeuralActivation.LukasiewiczTransparent}
@@ -122,6 +123,17 @@ class FolKB:
             ws = [Fr(float(w)) for w in neuron.weights.detach().tolist()]
             b = impl.fr(neuron.bias)
             t = 1 if type(neuron).__name__ == "LukasiewiczTransparent" else 0
+            # requested parameters win over what the object holds (see impl.PropKB.node_line)
+            req = self.requested.get(i, {})
+            if cn in ("And", "Or", "Implies"):
+                if "w" in req:
+                    ws = [Fr(x) for x in req["w"]]
+                if "b" in req:
+                    b = Fr(req["b"])
+                if "act" in req:
+                    t = 1 if req["act"] == "lukt" else 0
+                if "alpha" in req:
+                    alpha = Fr(req["alpha"])
         else:
             ws, b, t = [Fr(1)] * len(ops), Fr(1), 1
         maps = "-"
@@ -141,8 +153,15 @@ class FolKB:
     def header_lines(self):
         return ["reset"] + [self.node_line(i) for i in self.order]
 
+    # constant k is named "n", "n_n", "n_n_n", ...: legal identifiers whose concatenations collide (('n','n_n') and
+    # ('n_n','n') both flatten to 'n_n_n'), whose sorted order is the index order, and none of which is a prefix-free code:
+    # anything that builds a key by joining names instead of using the tuple shows up
+    @staticmethod
+    def _name(k):
+        return "_".join(["n"] * (int(k) + 1))
+
     def const_no(self, name):
-        return int(name[1:])
+        return name.count("n") - 1
 
     def table(self, i):
         """{grounding (tuple of constant numbers): (lo, hi)} as the public API shows it"""
@@ -201,7 +220,7 @@ class FolKB:
         return [j for i in top for j in self.expand(i, direction)]
 
     def cname(self, g):
-        names = tuple(f"c{k}" for k in g)
+        names = tuple(self._name(k) for k in g)
         return names[0] if len(names) == 1 else names
 
 
@@ -439,7 +458,7 @@ def gen_fol_kb(rng, n_preds=(2, 4), n_conn=(1, 3), max_arity=3, quant=False, wor
             if weighted and rng.random() < 0.4:
                 n["w"] = [rng.choice([Fr(1, 2), ONE, Fr(2), ONE]) for _ in range(ar)]
             if weighted and rng.random() < 0.3:
-                n["b"] = rng.choice([ONE, Fr(1, 2), Fr(3, 2)])
+                n["b"] = rng.choice([ONE, Fr(1, 2), Fr(3, 2), ZERO])
             if worlds and rng.random() < 0.2:
                 n["world"] = rng.choice(["closed", "axiom"])
         n["nvars"] = len(uvars)
@@ -506,6 +525,21 @@ def gen_fol_kb(rng, n_preds=(2, 4), n_conn=(1, 3), max_arity=3, quant=False, wor
                         if worlds and rng.random() < 0.5:
                             pn["world"] = rng.choice(["axiom", "axiom", "closed"])
                     nodes.append(pn)
+                    if pk != "not" and rng.random() < 0.45:
+                        # the same quantified sub-formula used by a SECOND formula: one parent proves a bound for a grounding,
+                        # the other hands it new groundings before its own next pass
+                        new_roots.append(nid)
+                        nid += 1
+                        pp2 = rng.choice(preds)
+                        pool2 = list(free_left) + [v for v in VARS if v not in free_left]
+                        rng.shuffle(pool2) if rng.random() < 0.3 else None
+                        pops2 = [[pp2["id"], pool2[:pp2["arity"]]], [qid, None]]
+                        if rng.random() < 0.5:
+                            pops2.reverse()
+                        pn2 = {"id": nid, "kind": rng.choice(["or", "and", "implies"]), "ops": pops2, "act": rng.choice(["lukt", "luk"])}
+                        if worlds and rng.random() < 0.3:
+                            pn2["world"] = rng.choice(["axiom", "closed"])
+                        nodes.append(pn2)
                 new_roots.append(nid)
                 nid += 1
             else:
@@ -942,7 +976,37 @@ def run_c02(case):
     return rec
 
 
+def gen_c02_negshare_case(rng):
+    """a negated predicate that also occurs un-negated in another rule, both rules given (axioms), the premises known for
+    DIFFERENT individuals: Not(P) receives its groundings from its own rule, P from the other one, in different orders"""
+    ar = rng.choice([1, 1, 2])
+    vs = VARS[:ar]
+    preds = [{"id": 0, "arity": ar, "world": "open"}, {"id": 1, "arity": ar, "world": "open"}, {"id": 2, "arity": ar, "world": "open"}]
+    nodes = [{"id": 3, "kind": "not", "ops": [[0, list(vs)]]},
+             {"id": 4, "kind": rng.choice(["implies", "implies", "or"]), "ops": [[1, list(vs)], [3, None]], "act": rng.choice(["lukt", "luk"]), "world": "axiom"},
+             {"id": 5, "kind": "implies", "ops": [[2, list(vs)], [0, list(vs)]], "act": rng.choice(["lukt", "luk"]), "world": "axiom"}]
+    roots = [4, 5] if rng.random() < 0.6 else [5, 4]
+    nc = rng.randint(2, 4)
+    import itertools
+    gs = list(itertools.product(range(nc), repeat=ar))
+    rng.shuffle(gs)
+    k = max(1, len(gs) // 2)
+    facts = []
+    for g in gs[:k]:
+        if rng.random() < 0.8:
+            facts.append((1, list(g), ONE, ONE) if rng.random() < 0.7 else (1, list(g), *rand_bounds(rng, 0.3, 0.0)))
+    for g in gs[k:]:
+        if rng.random() < 0.8:
+            facts.append((2, list(g), ONE, ONE) if rng.random() < 0.7 else (2, list(g), *rand_bounds(rng, 0.3, 0.0)))
+    if rng.random() < 0.3 and gs:
+        facts.append((0, list(rng.choice(gs)), *rand_bounds(rng, 0.5, 0.0)))
+    return {"kb": {"preds": preds, "nodes": nodes, "roots": roots}, "facts": facts, "n_consts": nc,
+            "ops": [("infer", rng.choice([1, 3, 60]))]}
+
+
 def gen_c02_case(rng, interp=True):
+    if not interp and rng.random() < 0.3:
+        return gen_c02_negshare_case(rng)
     desc = gen_fol_kb(rng, n_preds=(2, 3), n_conn=(1, 3), max_arity=2, quant=False, worlds=True, weighted=True, composites=False)
     for n in desc["nodes"]:
         n.pop("world", None)            # connective worlds stay OPEN: the drawn interpretation need not satisfy them
@@ -950,11 +1014,14 @@ def gen_c02_case(rng, interp=True):
     import itertools
     facts = []
     for p in desc["preds"]:
+        # some predicates are known for few individuals only: their tables, and those of the formulae over them, are then
+        # filled from several sides and in different orders
+        dens = rng.choice([0.6, 0.6, 0.25, 0.1])
         for g in itertools.product(range(nc), repeat=p["arity"]):
             w = p.get("world", "open")
             v = grid(rng)
             if interp:
-                if rng.random() < 0.6:
+                if rng.random() < dens:
                     lo = Fr(rng.randint(0, int(v * 8)), 8) if rng.random() < 0.7 else ZERO
                     hi = Fr(rng.randint(-(-v * 8 // 1), 8), 8) if rng.random() < 0.7 else ONE
                     if rng.random() < 0.4:
@@ -962,7 +1029,7 @@ def gen_c02_case(rng, interp=True):
                     facts.append((p["id"], list(g), lo, hi))
                 # an unasserted atom keeps the world default, which is a consistent reading by itself
             else:
-                if rng.random() < 0.6:
+                if rng.random() < dens:
                     # some contradictory facts among consistent ones: a leak between groundings shows up at the consistent ones
                     lo, hi = rand_bounds(rng, 0.5, 0.2)
                     facts.append((p["id"], list(g), lo, hi))
@@ -1098,15 +1165,16 @@ def run_c12(case):
 def gen_c12_case(rng):
     import itertools
     npred = rng.randint(1, 2)
-    preds = [{"id": k, "arity": rng.choice([1, 1, 2]), "world": "open"} for k in range(npred)]
+    preds = [{"id": k, "arity": rng.choice([1, 1, 2, 2, 3]), "world": "open"} for k in range(npred)]
     nodes, nid = [], npred
     kind = rng.choice(["forall", "exists"])
     high = kind == "forall"
+    wide = rng.random() < 0.4          # three body variables: up to two FREE variables per quantifier
     if rng.random() < 0.6 or preds[0]["arity"] != 1:
         # connective body over the predicates
         ops = []
         for p in preds:
-            vs = rng.sample(VARS[:2] if p["arity"] <= 2 else VARS, p["arity"])
+            vs = rng.sample(VARS if (wide or p["arity"] > 2) else VARS[:2], p["arity"])
             ops.append([p["id"], vs])
         if len(ops) == 1:
             ops.append([preds[0]["id"], list(reversed(ops[0][1])) if preds[0]["arity"] == 2 else ops[0][1]])
